@@ -137,7 +137,18 @@ impl RateLoader {
     ) -> Result<Option<DailyRate>, SError> {
         let year = trade_date.year() as u32;
 
-        if !self.year_rates.contains_key(&year) {
+        // A year that was taken from the cache (rather than downloaded by this
+        // process) has only been validated against the date it was first loaded
+        // for. If this date is missing from it, the cached year is too old for
+        // this date as well, so go through the cache invalidation check again.
+        let needs_load = match self.year_rates.get(&year) {
+            None => true,
+            Some(rates) => {
+                !self.fresh_loaded_years.contains(&year)
+                    && !rates.contains_key(&trade_date)
+            }
+        };
+        if needs_load {
             debug!("RateLoader::get_exact_usd_cad_rate {} not yet loaded", year);
             let rates = self.fetch_usd_cad_rates_for_date_year(&trade_date).await?;
             self.year_rates.insert(year, rates);
